@@ -196,3 +196,63 @@ def install_collections(eng, rec=None):
         if isinstance(v, Opaque) and v.kind == 'verts': return one(st, z3.Int(f'nverts_{v.name}'))
         return NotImplemented
     M(r'^std::vec::Vec::<.*>::len$|core::slice::<impl \[.*\]>::len$', vlen_opaque)
+
+# ------------------------------------------------------------------------------------------------
+def install_rrt(eng, rec, limits=None, dim=2):
+    """generic-N arithmetic, kd-tree (nearest = ANY existing index), is_free / random_sample / stop-flag oracles, tracing disabled"""
+    from .symex import Inconclusive, fop, fcmp
+    from .models_std import _deq
+    D = eng.deref
+    M = lambda pat, h: eng.model(pat, h, front=True)
+    one = lambda st, v: [(st, v)]
+    rec.update(is_free=[], samples=[], stop=[], nearest=[])
+    for tr, op in (('Add', 'Add'), ('Sub', 'Sub'), ('Mul', 'Mul'), ('Div', 'Div')):
+        M(r'^<N as std::ops::%s>::%s$' % (tr, tr.lower()), (lambda op: lambda e, st, fr, f, a, m: one(st, e.binop(op, D(st, a[0]), D(st, a[1]))))(op))
+    M(r'^<N as num_traits::Float>::sqrt$', lambda e, st, fr, f, a, m: one(st, F(e.trig.sqrt(a[0].v), b_or(a[0].poison(), a[0].v < 0))))
+    M(r'^<N as num_traits::Zero>::zero$', lambda e, st, fr, f, a, m: one(st, fconst(0)))
+    M(r'^<N as std::cmp::PartialOrd>::(gt|lt|ge|le)$', lambda e, st, fr, f, a, m: one(st, e.binop({'gt': 'Gt', 'lt': 'Lt', 'ge': 'Ge', 'le': 'Le'}[m.group(1)], D(st, a[0]), D(st, a[1]))))
+    M(r'^<tracing::Level as std::cmp::PartialOrd<tracing::level_filters::LevelFilter>>::le$', lambda e, st, fr, f, a, m: one(st, False))
+    M(r'^kdtree::KdTree::<.*>::new$', lambda e, st, fr, f, a, m: one(st, Opaque('kdtree')))
+    M(r'^kdtree::KdTree::<.*>::add$', lambda e, st, fr, f, a, m: one(st, Ok(UNIT)))
+    def items_of(st, x):
+        v = D(st, x)
+        return list(v.items)
+    def sq_euclid(e, st, fr, f, a, m):
+        x, y = items_of(st, a[0]), items_of(st, a[1]); acc = fconst(0)
+        for p, q in zip(x, y):
+            d = fop('Sub', p, q); acc = fop('Add', acc, fop('Mul', d, d))
+        return one(st, acc)
+    M(r'^kdtree::distance::squared_euclidean$', sq_euclid)
+    def nearest(e, st, fr, f, a, m):
+        # the tree the kd-tree belongs to: the kdtree is field 0 of the Tree whose field 1 holds the vertices
+        tree_ref = RefV(a[0].frame, a[0].local, a[0].path[:-1]) if isinstance(a[0], RefV) and a[0].path else None
+        n = len(D(st, tree_ref).items[1].items) if tree_ref is not None else rec.get('n_nodes', 1)
+        outs = []; seq = st.aux.get('nearest_calls', 0)
+        for i in range(n):
+            # one cell per call (same key in every forked state, different concrete value): such states are never merged, indices stay concrete
+            s2 = st.clone(); cell = ('nearest', seq); s2.frames[0].locals[cell] = i; s2.aux['nearest_calls'] = seq + 1
+            rec['nearest'].append(i)
+            outs.append((s2, Ok(VecV.dense([Agg([fconst(0), RefV(0, cell, ())])]))))
+        return outs
+    M(r'^kdtree::KdTree::<.*>::nearest', nearest)
+    def to_vec(e, st, fr, f, a, m):
+        v = D(st, a[0]); return one(st, VecV.dense(list(v.items)))
+    M(r'^std::slice::<impl \[.*\]>::to_vec$|core::slice::<impl \[.*\]>::to_vec$', to_vec)
+    def vec_append(e, st, fr, f, a, m):
+        x, y = D(st, a[0]), D(st, a[1]); e.write_ref(st, a[0], VecV(list(x.ents) + list(y.ents))); e.write_ref(st, a[1], VecV([])); return one(st, UNIT)
+    M(r'^std::vec::Vec::<.*>::append$', vec_append)
+    M(r'^<&str as std::cmp::PartialEq>::eq$|^<str as std::cmp::PartialEq>::eq$', lambda e, st, fr, f, a, m: one(st, D(st, a[0]).s == D(st, a[1]).s))
+    M(r'^<str as std::string::ToString>::to_string$', lambda e, st, fr, f, a, m: one(st, D(st, a[0])))
+    def is_free(e, st, fr, f, a, m):
+        q = D(st, a[1].items[0]) if isinstance(a[1], Agg) else D(st, a[1])
+        b = z3.Bool(f'free{len(rec["is_free"])}'); rec['is_free'].append((q, b)); return one(st, b)
+    M(r'^<FF as std::ops::FnMut<\(&\[N\],\)>>::call_mut$', is_free)
+    def sample(e, st, fr, f, a, m):
+        k = len(rec['samples']); vs = [z3.Real(f'sample{k}_{i}') for i in range(dim)]
+        if limits is not None:
+            for v, (lo, hi) in zip(vs, limits): st.assume(z3.And(v >= lo, v <= hi))
+        q = VecV.dense([F(v) for v in vs]); rec['samples'].append(q); return one(st, q)
+    M(r'^<FR as std::ops::Fn<\(\)>>::call$', sample)
+    def load(e, st, fr, f, a, m):
+        b = z3.Bool(f'stop{len(rec["stop"])}'); rec['stop'].append(b); return one(st, b)
+    M(r'^std::sync::atomic::Atomic(Bool)?::<.*>::load$|^std::sync::atomic::AtomicBool::load$|^std::sync::atomic::Atomic::<bool>::load$', load)
